@@ -64,7 +64,15 @@ pub enum Action {
     /// deliver up to `n` pending watcher events (oldest first); `dup`: send the batch twice;
     /// `reverse`: deliver the batch in reverse order
     Watch { n: usize, dup: bool, reverse: bool },
-    EmmyrcWrite { diagnostic_interval: Option<u64>, enable_reindex: bool, reindex_duration: u64 },
+    EmmyrcWrite {
+        diagnostic_interval: Option<u64>,
+        enable_reindex: bool,
+        reindex_duration: u64,
+        /// `workspace.ignoreGlobs = ["**/deep/**"]`: documents under a `deep/` directory leave
+        /// (or, when false again, re-enter) the workspace at the reload this write triggers
+        #[serde(default)]
+        ignore_deep: bool,
+    },
     /// a response for a request id the server never issued
     StrayResponse { id: i32 },
     /// editor-initiated rename of the file of `from` to the (free) path of `to`: the file is moved
@@ -191,6 +199,8 @@ pub struct Profile {
     /// after an open / change, sometimes emit another change (or the close) of the same document
     /// exactly when its debounced diagnostic task fires (interval -1 / 0 / +1 ms later)
     pub timer_races: bool,
+    /// .emmyrc.json rewrites may exclude / re-include the `deep/` documents
+    pub membership_flips: bool,
 }
 
 const LOCKY_METHODS: &[&str] = &[
@@ -242,6 +252,7 @@ pub fn profile(prop: &str) -> Profile {
         client_faults: false,
         reload_bursts: false,
         timer_races: false,
+        membership_flips: false,
     };
     match prop {
         "C27" => base,
@@ -288,6 +299,7 @@ pub fn profile(prop: &str) -> Profile {
             g: [60, 25, 8, 2, 3, 2],
             allow_reindex: true,
             client_faults: true,
+            membership_flips: true,
             ..base
         },
         "C29" => Profile {
@@ -306,6 +318,7 @@ pub fn profile(prop: &str) -> Profile {
             g: [35, 20, 10, 10, 20, 5],
             allow_reindex: true,
             reload_bursts: true,
+            membership_flips: true,
             ..base
         },
         "C30" => Profile {
@@ -327,6 +340,7 @@ pub fn profile(prop: &str) -> Profile {
             allow_reindex: true,
             reload_bursts: true,
             timer_races: true,
+            membership_flips: true,
             ..base
         },
         _ => base,
@@ -451,7 +465,7 @@ pub fn generate(prop: &str, seed: u64) -> RunSpec {
             if emmyrc {
                 script.push(Step {
                     gap: Gap::SleepMs(r.range(1, 3000)),
-                    action: Action::EmmyrcWrite { diagnostic_interval: Some(100), enable_reindex: false, reindex_duration: 1000 },
+                    action: Action::EmmyrcWrite { diagnostic_interval: Some(100), enable_reindex: false, reindex_duration: 1000, ignore_deep: false },
                 });
                 script.push(Step { gap: Gap::Zero, action: Action::Watch { n: 3, dup: false, reverse: false } });
             } else {
@@ -580,6 +594,7 @@ pub fn generate(prop: &str, seed: u64) -> RunSpec {
                     diagnostic_interval: *r.pick(&[None, Some(0), Some(100), Some(500), Some(1500)]),
                     enable_reindex: p.allow_reindex && r.chance(1, 2),
                     reindex_duration: *r.pick(&[0, 1000, 2000]),
+                    ignore_deep: p.membership_flips && r.chance(1, 3),
                 }
             }
             11 => Action::StrayResponse { id: 70_000 + r.below(5) as i32 },
@@ -693,7 +708,7 @@ pub fn generate(prop: &str, seed: u64) -> RunSpec {
         let action = if r.chance(1, 2) {
             Action::ChangeConfig { version: cfg_version + 1 }
         } else {
-            Action::EmmyrcWrite { diagnostic_interval: Some(100), enable_reindex: p.allow_reindex && r.chance(1, 2), reindex_duration: 1000 }
+            Action::EmmyrcWrite { diagnostic_interval: Some(100), enable_reindex: p.allow_reindex && r.chance(1, 2), reindex_duration: 1000, ignore_deep: false }
         };
         let gap = gen_gap(&mut r, &p, interval);
         script.insert(at, Step { gap, action });
